@@ -165,7 +165,7 @@ def note_known(ctx, names, devs):
 PLANS = {
     # property: (families quick, families thorough-extra, aspects judged)
     "C01": (["flat", "nest1", "nest2", "nest3", "inline1", "inline2", "spread", "dups", "args", "ops", "dirvars", "dirnull", "inputs", "abstract", "absops", "forms"], [], {"data", "opchoice"}),
-    "C06": (["fault0", "fault1", "faultnth", "abstract"], ["fault2"], {"errors", "data"}),
+    "C06": (["fault0", "fault1", "faultnth", "faultcall", "abstract"], ["fault2"], {"errors", "data"}),
     "C09": (["dirs", "dirvars", "dirnull"], [], {"data", "calls"}),
     "C10": (["defect", "defectabs", "forms"], [], {"errors_cover", "calls", "data", "opchoice"}),
 }
